@@ -183,12 +183,12 @@ func (ps *pathState) allocTerm(fr *frame, n *smt.Term) {
 // siteOf names the innermost repository function on the stack of fr.
 func (ps *pathState) siteOf(fr *frame) string {
 	for f := fr; f != nil; f = f.caller {
-		if f.fn.Blocks != nil && ps.eng.isRepoFn(f.fn) && !ps.eng.isHarnessFn(f.fn) {
+		if !f.ext && f.fn.Blocks != nil && ps.eng.isRepoFn(f.fn) && !ps.eng.isHarnessFn(f.fn) {
 			return fmt.Sprintf("%s (%s)", f.fn.String(), shortPos(ps.eng.prog.Fset, f.pos))
 		}
 	}
 	for f := fr; f != nil; f = f.caller {
-		if f.fn.Blocks != nil && ps.eng.isRepoFn(f.fn) {
+		if !f.ext && f.fn.Blocks != nil && ps.eng.isRepoFn(f.fn) {
 			return fmt.Sprintf("%s (%s)", f.fn.String(), shortPos(ps.eng.prog.Fset, f.pos))
 		}
 	}
